@@ -131,6 +131,8 @@ func init() {
 		"vNote":        func(r *Run, fn *ssa.Function, a []Value) Value { return nil },
 		"vFreezeAll":   rtFreezeAll,
 		"vFrozenWrites": rtFrozenWrites,
+		"vShareBarrier": rtShareBarrier,
+		"vRaceReport":   rtRaceReport,
 	}
 }
 
@@ -1160,6 +1162,10 @@ func inMutexLock(r *Run, fn *ssa.Function, a []Value) Value {
 		r.goPanic("deadlock: mutex locked twice on one goroutine")
 	}
 	r.locks[key]++
+	r.anyLocks++
+	if !strings.Contains(fn.Name(), "RLock") {
+		r.wlocks++
+	}
 	return nil
 }
 
@@ -1170,6 +1176,10 @@ func inMutexUnlock(r *Run, fn *ssa.Function, a []Value) Value {
 		r.goPanic("sync: unlock of unlocked mutex")
 	}
 	r.locks[key]--
+	r.anyLocks--
+	if !strings.Contains(fn.Name(), "RUnlock") {
+		r.wlocks--
+	}
 	return nil
 }
 
@@ -1324,6 +1334,34 @@ func rtFreezeAll(r *Run, fn *ssa.Function, a []Value) Value {
 
 func rtFrozenWrites(r *Run, fn *ssa.Function, a []Value) Value { return r.mkInt(r.frozenWrites) }
 
+// vShareBarrier: everything allocated so far is state other goroutines can reach.
+func rtShareBarrier(r *Run, fn *ssa.Function, a []Value) Value {
+	r.shareAt = r.eng.nextObj
+	r.sharedWritten, r.unlockedWrites, r.unlockedReads = nil, nil, nil
+	return nil
+}
+
+// vRaceReport: number of violations of the discipline since the barrier (writes to shared objects without an
+// exclusive lock; unlocked reads of shared objects that are written). Each is also recorded by position.
+func rtRaceReport(r *Run, fn *ssa.Function, a []Value) Value {
+	n := 0
+	for _, pos := range r.unlockedWrites {
+		n++
+		if r.res != nil {
+			r.res.GlobalWrites["shared write without exclusive lock at "+pos]++
+		}
+	}
+	for id, rpos := range r.unlockedReads {
+		if wpos, ok := r.sharedWritten[id]; ok {
+			n++
+			if r.res != nil {
+				r.res.GlobalWrites["unlocked read at "+rpos+" of shared state written at "+wpos]++
+			}
+		}
+	}
+	return r.mkInt(n)
+}
+
 
 // ---- unicode/utf8
 
@@ -1399,7 +1437,9 @@ func (r *Run) atomicField(fn *ssa.Function, recv Value) (PtrV, types.Type) {
 }
 
 func (r *Run) atomicGet(fp PtrV, ft types.Type, fn *ssa.Function) Value {
+	r.atomicDepth++
 	v := r.load(fp)
+	r.atomicDepth--
 	// Pointer[T].v is an unsafe.Pointer holding a *T; Bool.v is a uint32
 	if res := fn.Signature.Results(); res.Len() == 1 {
 		if w, _, ok := intInfo(res.At(0).Type()); ok {
@@ -1419,7 +1459,9 @@ func (r *Run) atomicPut(fp PtrV, ft types.Type, v Value) {
 			v = r.eng.tt.Ite(t, r.eng.tt.Const(w, 1), r.eng.tt.Const(w, 0))
 		}
 	}
+	r.atomicDepth++
 	r.store(fp, v)
+	r.atomicDepth--
 }
 
 func inAtomicLoad(r *Run, fn *ssa.Function, a []Value) Value {
